@@ -26,7 +26,7 @@ RULE = ("programs from the typed generator; every ancestor of the result x {pers
 ASSUMPTIONS = ["persist(scheduler='sync')", "to_delayed() documents that it optimizes first"]
 CONFIG = {
     "quick": {"budget_s": 50, "programs": 500, "case_timeout_s": 90},
-    "thorough": {"budget_s": 540, "programs": 8000, "case_timeout_s": 180},
+    "thorough": {"budget_s": 540, "programs": 2500, "case_timeout_s": 180},
 }
 KINDS = ["persist", "delayed", "legacy"]
 
